@@ -138,6 +138,29 @@ def cmd_mutants(args):
     return worst
 
 
+def cmd_xref(args):
+    """generic cross-reference pass (stands in for mypy's possibly-undefined, which is not installed): path-sensitive
+    definite assignment over every function of the package.  Not a property check; its hits are triaged in DESIGN.md."""
+    from .defassign import possibly_unbound
+    repo = Repo(args.repo or default_repo())
+    n = 0
+    for f in repo.funcs():
+        try:
+            ub = possibly_unbound(f)
+        except AnalysisError:
+            print("skipped (state space too large): %s" % f.qualname)
+            continue
+        seen = set()
+        for nm, node, path in ub:
+            if (nm, node.text) in seen:
+                continue
+            seen.add((nm, node.text))
+            n += 1
+            print("possibly-unbound %s: `%s` in `%s`" % (f.where, nm, node.text[:80]))
+    print("%d candidate(s)" % n)
+    return 0
+
+
 def cmd_seeded(args):
     from . import seeded
     return seeded.run(args)
@@ -168,6 +191,9 @@ def main(argv=None):
     a.add_argument("prop", nargs="?")
     a.add_argument("--repo")
     a.set_defaults(fn=cmd_mutants)
+    a = sub.add_parser("xref")
+    a.add_argument("--repo")
+    a.set_defaults(fn=cmd_xref)
     a = sub.add_parser("seeded")
     a.add_argument("ids", nargs="*")
     a.add_argument("--repo")
